@@ -5,6 +5,7 @@ import (
 	"fmt"
 	"io"
 	"os"
+	"strconv"
 	"strings"
 )
 
@@ -157,16 +158,24 @@ func (nm LNumber) Format(f fmt.State, c rune) {
 	case 'o', 'x', 'X':
 		// unsigned conversions: values in [2^63, 2^64) do not fit an int64
 		if nm >= 1<<63 {
-			defaultFormat(uint64(nm), f, c)
+			formatInteger(f, c, false, uint64(nm))
+		} else if v := int64(nm); v < 0 {
+			formatInteger(f, c, true, uint64(-v))
 		} else {
-			defaultFormat(int64(nm), f, c)
+			formatInteger(f, c, false, uint64(v))
 		}
-	case 'b', 'd', 'U':
+	case 'd':
+		if v := int64(nm); v < 0 {
+			formatInteger(f, c, true, uint64(-v))
+		} else {
+			formatInteger(f, c, false, uint64(v))
+		}
+	case 'b', 'U':
 		defaultFormat(int64(nm), f, c)
 	case 'e', 'E', 'f', 'F', 'g', 'G':
 		defaultFormat(float64(nm), f, c)
 	case 'i':
-		defaultFormat(int64(nm), f, 'd')
+		nm.Format(f, 'd')
 	default:
 		if isInteger(nm) {
 			defaultFormat(int64(nm), f, c)
@@ -174,6 +183,63 @@ func (nm LNumber) Format(f fmt.State, c rune) {
 			defaultFormat(float64(nm), f, c)
 		}
 	}
+}
+
+// formatInteger writes the magnitude u (negative if neg) for the conversions
+// d, o, x and X with the flags, width and precision of f the way C's printf
+// does. Go's fmt differs from it in corner cases: "%#x" of 0 is "0" (no
+// prefix), a zero precision with a zero value still prints the sign and the
+// "#" octal zero, and the "0x" prefix counts towards a zero padded width.
+func formatInteger(f fmt.State, c rune, neg bool, u uint64) {
+	base := 10
+	switch c {
+	case 'o':
+		base = 8
+	case 'x', 'X':
+		base = 16
+	}
+	digits := strconv.FormatUint(u, base)
+	if c == 'X' {
+		digits = strings.ToUpper(digits)
+	}
+	prec, hasPrec := f.Precision()
+	if hasPrec && prec == 0 && u == 0 {
+		digits = ""
+	}
+	if len(digits) < prec {
+		digits = strings.Repeat("0", prec-len(digits)) + digits
+	}
+	prefix := ""
+	switch {
+	case neg:
+		prefix = "-"
+	case c == 'd' && f.Flag('+'):
+		prefix = "+"
+	case c == 'd' && f.Flag(' '):
+		prefix = " "
+	}
+	if f.Flag('#') {
+		switch {
+		case c == 'o' && !strings.HasPrefix(digits, "0"):
+			digits = "0" + digits
+		case c == 'x' && u != 0:
+			prefix += "0x"
+		case c == 'X' && u != 0:
+			prefix += "0X"
+		}
+	}
+	if w, ok := f.Width(); ok && w > len(prefix)+len(digits) {
+		pad := w - len(prefix) - len(digits)
+		switch {
+		case f.Flag('-'):
+			digits += strings.Repeat(" ", pad)
+		case f.Flag('0') && !hasPrec:
+			digits = strings.Repeat("0", pad) + digits
+		default:
+			prefix = strings.Repeat(" ", pad) + prefix
+		}
+	}
+	io.WriteString(f, prefix+digits)
 }
 
 type LTable struct {
